@@ -4,7 +4,7 @@ import os
 
 from vlib import MachineryError
 
-ACTIONS = ["TopFail", "Top", "Ensure", "Spawn", "Begin", "Step", "EndExec", "Commit", "Exit", "Cancel"]
+ACTIONS = ["TopFail", "Top", "TopRefuse", "Ensure", "Spawn", "Begin", "Step", "EndExec", "Commit", "Exit", "Cancel"]
 
 
 def tla_set(xs):
@@ -12,14 +12,15 @@ def tla_set(xs):
 
 
 def consts(K=3, acc=("x",), level=2, maxlen=1, fates=("ok",), maxfail=1, world=("W",), ensure=False, impl="required",
-           implwr="required", cancel=False, maxops=0):
+           implwr="required", cancel=False, initvals=(0,), maxops=0):
     if world is True:
         world = ("W",)
     elif world is False:
         world = ()
     return dict(K=K, Acc=tla_set(acc), Level=level, Impl='"%s"' % impl, MaxLen=maxlen, Fates=tla_set(fates),
                 MaxFail=maxfail, WorldTx=tla_set(world), EnsureTx="TRUE" if ensure else "FALSE",
-                ImplWR='"%s"' % implwr, CancelOn="TRUE" if cancel else "FALSE", RetryCount=2, MaxOps=maxops)
+                ImplWR='"%s"' % implwr, CancelOn="TRUE" if cancel else "FALSE",
+                InitVals="{" + ", ".join(str(v) for v in initvals) + "}", RetryCount=2, MaxOps=maxops)
 
 
 def model_check(ctx, label, allow_zero=(), **kw):
@@ -27,6 +28,8 @@ def model_check(ctx, label, allow_zero=(), **kw):
                         timeout=ctx.pick(900, 3000), label=label)
     if not kw.get("ensure"):
         allow_zero = tuple(allow_zero) + ("Ensure",)
+    if not set(kw.get("fates", ())) & {"nohandler", "noprep"}:
+        allow_zero = tuple(allow_zero) + ("TopRefuse",)
     if not kw.get("cancel"):
         allow_zero = tuple(allow_zero) + ("Cancel",)
     ctx.check_coverage(r, [a for a in ACTIONS if a not in allow_zero], allow_zero=allow_zero)
@@ -41,8 +44,12 @@ def generate(ctx, n, seed, cfg="Gen_ParallelExec.cfg", **kw):
     acc = sorted(kw.get("acc", ("x",)))
     res = []
     for b in bs:
-        if b and b[-1]["op"] in ("exit", "topfail") and b[-1].get("seq"):
+        if b and b[-1]["op"] in ("exit", "topfail", "toprefuse") and b[-1].get("seq"):
             res.append(dict(level=kw.get("level", 2), k=kw.get("K", 3), acc=acc, steps=b))
+    # (the simulator also prints the sibling successors of a walk's last step, e.g. one refusal per program)
+    cap = 2 * n
+    if len(res) > cap:
+        res = [res[(i * len(res)) // cap] for i in range(cap)]
     return res
 
 
@@ -56,7 +63,7 @@ def replay(ctx, cases, shards=2):
     return recs
 
 
-def validate_traces(ctx, recs, cases_by_id, maxfates=("ok", "fatal", "retry1", "retryx")):
+def validate_traces(ctx, recs, cases_by_id, maxfates=("ok", "fatal", "retry1", "retryx", "nohandler", "noprep", "retryh")):
     """Recorded free-running executions of the real executor are checked by TLC against Trace_ParallelExec:
     accepted iff TLC finds an interleaving of the per-goroutine event logs that is a behaviour of the spec."""
     by = {}
@@ -68,7 +75,7 @@ def validate_traces(ctx, recs, cases_by_id, maxfates=("ok", "fatal", "retry1", "
     total = 0
     for (level, k, acc), items in sorted(by.items()):
         c = consts(K=k, acc=acc, level=level, maxlen=2, fates=maxfates, maxfail=k, world=("R", "W"), ensure=True,
-                   implwr="code")
+                   implwr="code", initvals=(0, 9))
 
         def accepted(trs, label):
             data = "".join(json.dumps(t, sort_keys=True) + "\n" for t in trs)
